@@ -38,14 +38,16 @@ VARIABLES
   depsOf,   \* gen |-> sequence of keys its factory resolves
   todo,     \* thread |-> sequence (parallel to stk) of the dependencies each running factory still resolves
   snap,     \* thread |-> sequence (parallel to stk) of [c0, quiet]: provider at call time, no overlapping registration
-  nexto, nextg, nexti,
+  nextg, nexti,
+  rcnt,     \* key |-> number of resolutions that returned an instance since its last registration, capped at 2
+            \* (keeps "first resolution" and "later resolutions" apart in the generator's VIEW)
   \* history variables for the properties
   facEnds,  \* gen |-> completed factory runs
   rets,     \* set of [key, g, i, kind] of every resolution that returned an instance
   fresh,    \* every transient resolution returned an instance no resolution had returned before
   latest    \* every resolution without overlapping registration of its key saw the provider current at its call
 
-mcVars == <<hist, depsOf, todo, snap, nexto, nextg, nexti, facEnds, rets, fresh, latest>>
+mcVars == <<hist, depsOf, todo, snap, nextg, nexti, rcnt, facEnds, rets, fresh, latest>>
 vars == <<iocVars, mcVars>>
 
 Todo(t) == IF t \in DOMAIN todo THEN todo[t] ELSE <<>>
@@ -79,7 +81,7 @@ Init ==
   /\ stk = [t \in Threads |-> <<>>] /\ preg = Empty /\ unw = [t \in Threads |-> ""]
   /\ hist = <<>> /\ depsOf = Empty
   /\ todo = [t \in Threads |-> <<>>] /\ snap = [t \in Threads |-> <<>>]
-  /\ nexto = 1 /\ nextg = 1 /\ nexti = 1
+  /\ nextg = 1 /\ nexti = 1 /\ rcnt = [k \in KeySet |-> 0]
   /\ facEnds = Empty /\ rets = {} /\ fresh = TRUE /\ latest = TRUE
 
 \* a registration of `key` starts: frames resolving that key are no longer "quiet"
@@ -92,16 +94,19 @@ DoRegCall(t, key, kind, deps) ==
   /\ Len(hist) < MaxOps /\ NumRegs < MaxRegs
   /\ kind = "instance" => deps = <<>>
   /\ CanonOK(op)
-  /\ RegCall(t, nexto, key, kind, nextg, nexti)
+  /\ RegCall(t, 0, key, kind, nextg, nexti)
   /\ hist' = Append(hist, op)
   /\ depsOf' = Put(depsOf, nextg, deps)
   /\ facEnds' = Put(facEnds, nextg, 0)
   /\ snap' = Disturb(key)
-  /\ nexto' = nexto + 1 /\ nextg' = nextg + 1
+  /\ nextg' = nextg + 1
   /\ nexti' = IF kind = "instance" THEN nexti + 1 ELSE nexti
-  /\ UNCHANGED <<todo, rets, fresh, latest>>
+  /\ UNCHANGED <<todo, rcnt, rets, fresh, latest>>
 
-DoRegLin(t) == RegLin(t) /\ UNCHANGED mcVars
+DoRegLin(t) ==
+  /\ RegLin(t)
+  /\ rcnt' = [rcnt EXCEPT ![preg[t].key] = 0]
+  /\ UNCHANGED <<hist, depsOf, todo, snap, nextg, nexti, facEnds, rets, fresh, latest>>
 DoRegRet(t) == t \in DOMAIN preg /\ RegRet(t, preg[t].o) /\ UNCHANGED mcVars
 
 NewSnap(key) == [c0 |-> IF key \in DOMAIN prov THEN prov[key] ELSE 0,
@@ -112,23 +117,21 @@ DoResCallTop(t, key, via) ==
   /\ Len(hist) < MaxOps
   /\ Stk(t) = <<>>
   /\ CanonOK(op)
-  /\ ResCall(t, nexto, key, via)
+  /\ ResCall(t, 1, key, via)
   /\ hist' = Append(hist, op)
   /\ snap' = [snap EXCEPT ![t] = <<NewSnap(key)>>]
   /\ todo' = [todo EXCEPT ![t] = <<>>]
-  /\ nexto' = nexto + 1
-  /\ UNCHANGED <<depsOf, nextg, nexti, facEnds, rets, fresh, latest>>
+  /\ UNCHANGED <<depsOf, nextg, nexti, rcnt, facEnds, rets, fresh, latest>>
 
 \* the running factory resolves its next dependency
 DoResCallNested(t) ==
   /\ Stk(t) # <<>> /\ Depth(t) < MaxDepth
   /\ Todo(t) # <<>> /\ Last1(Todo(t)) # <<>>
   /\ LET key == Head(Last1(Todo(t))) IN
-     /\ ResCall(t, nexto, key, "get")
+     /\ ResCall(t, Depth(t) + 1, key, "get")
      /\ snap' = [snap EXCEPT ![t] = Append(@, NewSnap(key))]
      /\ todo' = [todo EXCEPT ![t] = Append(ButLast(@), Tail(Last1(@)))]
-  /\ nexto' = nexto + 1
-  /\ UNCHANGED <<hist, depsOf, nextg, nexti, facEnds, rets, fresh, latest>>
+  /\ UNCHANGED <<hist, depsOf, nextg, nexti, rcnt, facEnds, rets, fresh, latest>>
 
 DoLookup(t) == Lookup(t) /\ UNCHANGED mcVars
 
@@ -136,7 +139,7 @@ DoFacStart(t) ==
   /\ Stk(t) # <<>> /\ Top(t).lk = "gen"
   /\ FacStart(t, Top(t).b)
   /\ todo' = [todo EXCEPT ![t] = Append(@, depsOf[Top(t).b])]
-  /\ UNCHANGED <<hist, depsOf, snap, nexto, nextg, nexti, facEnds, rets, fresh, latest>>
+  /\ UNCHANGED <<hist, depsOf, snap, nextg, nexti, rcnt, facEnds, rets, fresh, latest>>
 
 DoFacEnd(t) ==
   /\ Stk(t) # <<>> /\ Top(t).fac = "run"
@@ -145,13 +148,13 @@ DoFacEnd(t) ==
   /\ todo' = [todo EXCEPT ![t] = ButLast(@)]
   /\ facEnds' = [facEnds EXCEPT ![Top(t).b] = @ + 1]
   /\ nexti' = nexti + 1
-  /\ UNCHANGED <<hist, depsOf, snap, nexto, nextg, rets, fresh, latest>>
+  /\ UNCHANGED <<hist, depsOf, snap, nextg, rcnt, rets, fresh, latest>>
 
 DoFacPanic(t) ==
   /\ Stk(t) # <<>> /\ Top(t).fac = "run"
   /\ FacPanic(t, Top(t).b)
   /\ todo' = [todo EXCEPT ![t] = ButLast(@)]
-  /\ UNCHANGED <<hist, depsOf, snap, nexto, nextg, nexti, facEnds, rets, fresh, latest>>
+  /\ UNCHANGED <<hist, depsOf, snap, nextg, nexti, rcnt, facEnds, rets, fresh, latest>>
 
 PopSnap(t) == snap' = [snap EXCEPT ![t] = ButLast(@)]
 
@@ -162,21 +165,22 @@ DoRetSome(t) ==
        /\ rets' = rets \cup {[key |-> Top(t).key, g |-> made[i], i |-> i, kind |-> regs[made[i]].kind]}
        /\ fresh' = (fresh /\ (regs[Top(t).b].kind = "transient" => \A r \in rets : r.i # i))
        /\ latest' = (latest /\ (Last1(Snap(t)).quiet => made[i] = Last1(Snap(t)).c0))
+  /\ rcnt' = [rcnt EXCEPT ![Top(t).key] = IF @ < 2 THEN @ + 1 ELSE 2]
   /\ PopSnap(t)
-  /\ UNCHANGED <<hist, depsOf, todo, nexto, nextg, nexti, facEnds>>
+  /\ UNCHANGED <<hist, depsOf, todo, nextg, nexti, facEnds>>
 
 DoRetNone(t) ==
   /\ Stk(t) # <<>>
   /\ RetNone(t, Top(t).o)
   /\ latest' = (latest /\ (Last1(Snap(t)).quiet => Last1(Snap(t)).c0 = 0))
   /\ PopSnap(t)
-  /\ UNCHANGED <<hist, depsOf, todo, nexto, nextg, nexti, facEnds, rets, fresh>>
+  /\ UNCHANGED <<hist, depsOf, todo, nextg, nexti, rcnt, facEnds, rets, fresh>>
 
 DoRetPanic(t, pk) ==
   /\ Stk(t) # <<>>
   /\ RetPanic(t, Top(t).o, pk)
   /\ PopSnap(t)
-  /\ UNCHANGED <<hist, depsOf, todo, nexto, nextg, nexti, facEnds, rets, fresh, latest>>
+  /\ UNCHANGED <<hist, depsOf, todo, nextg, nexti, rcnt, facEnds, rets, fresh, latest>>
 
 Next ==
   \E t \in Threads :
@@ -217,13 +221,14 @@ Keys_ABQ  == {<<"c0", "S0", "-">>, <<"c0", "S1", "-">>, <<"c0", "Q0", "=a">>}
 Keys_T2N3 == {<<"c0", ty, nm>> : ty \in {"S0", "S1"}, nm \in {"-", "=a", "=b"}}
 Keys_SQN2 == {<<"c0", ty, nm>> : ty \in {"S0", "Q0"}, nm \in {"-", "=a"}}
 Keys_Deps == {<<"c0", "S0", "-">>, <<"c0", "S1", "-">>, <<"c0", "Q0", "-">>, <<"c0", "S0", "=a">>}
-Keys_C2   == {<<c, "S0", nm>> : c \in {"c0", "c1"}, nm \in {"-", "=a"}}
+Keys_C2   == {<<"c0", "S0", "-">>, <<"c1", "S0", "-">>, <<"c0", "S1", "-">>}
 Sym_None  == {}
 Sym_TN    == {<<"S0", "S1">>, <<"=a", "=b">>}
 Sym_T     == {<<"S0", "S1">>}
 Sym_C     == {<<"c0", "c1">>}
 Plain_All == {"instance", "singleton", "transient"}
 Plain_Lazy == {"singleton", "transient"}
+Plain_Sing == {"singleton"}
 Vias_Get  == {"get"}
 Vias_Both == {"get", "resolve_from"}
 
@@ -232,8 +237,10 @@ Emit == (Gen /\ hist' # hist) => PrintT(<<"PROG", ToJson(hist')>>)
 
 \* Idle states that differ only in numbering are one state for the generator.
 KeyView(k) == IF k \in DOMAIN prov
-                THEN <<regs[prov[k]].kind, cell[prov[k]].st, depsOf[prov[k]]>>
-                ELSE <<"unregistered", "", <<>>>>
+                THEN <<regs[prov[k]].kind, cell[prov[k]].st, depsOf[prov[k]], rcnt[k]>>
+                ELSE <<"unregistered", "", <<>>, 0>>
+\* the concurrency configurations do not need the order of the calls
+McView == <<iocVars, depsOf, todo, snap, nextg, nexti, rcnt, facEnds, rets, fresh, latest, Len(hist), NumRegs>>
 AllIdle == \A t \in Threads : Idle(t)
 GenView == IF AllIdle THEN <<[k \in KeySet |-> KeyView(k)], UsedAtoms, NumRegs = MaxRegs, <<>>>>
                       ELSE <<[k \in KeySet |-> KeyView(k)], UsedAtoms, NumRegs = MaxRegs, vars>>
